@@ -57,6 +57,8 @@ func runC15(c *Ctx) {
 	checkReorgListBuiltInOneDirection(c, "C15-R2")
 	checkFilteredBlocksAlwaysAnnounced(c, "C15-R2")
 	checkSyncedFlagNeverClearedByWallet(c, "C15-R2")
+	checkRescanFinishedAlwaysMarksSynced(c, "C15-R2")
+	checkStoppedClientIsDetached(c, "C15-R2")
 	// the wallet can follow the backend only if the notifications reach it in the order they were produced
 	c.Borrow(runC18, "C18-R1", "C15-R2", func(k string) bool { return strings.HasPrefix(k, "direct-handoff-only-when-overflow-empty") })
 	// the two stores move together during recovery too: a batch's stamps and the transactions found in it are written in
@@ -683,7 +685,85 @@ func heightsCoupled(p *Program, fn *ssa.Function, stamp ssa.Value, rbArg ssa.Val
 			}
 		}
 	}
+	// case 3: the stamp variable is a copy of an immutable struct value V (`stamp := fork.stamp`) and the rollback
+	// argument is V.Height + 1 read from that same value
+	if al, ok := stamp.(*ssa.Alloc); ok && rl.Konst == 1 && len(rl.Coef) == 1 && rl.Coef["field:Height"] == 1 {
+		if bo, ok := stripConv(rbArg).(*ssa.BinOp); ok {
+			hp := valuePath(stripConv(bo.X))
+			for _, st := range storesTo(al) {
+				if vp := valuePath(stripConv(st.Val)); vp != "" && hp == vp+".Height" {
+					return true, ""
+				}
+			}
+		}
+	}
 	return false, "cannot relate the rollback height " + rl.String() + " to the stamp's height (undecided)"
+}
+
+// valuePath: a chain of field selections on an SSA value (no loads: the value cannot change), "" otherwise.
+func valuePath(v ssa.Value) string {
+	switch x := v.(type) {
+	case *ssa.Field:
+		b := valuePath(x.X)
+		if b == "" {
+			return ""
+		}
+		_, name, _, ok := fieldOf(x)
+		if !ok {
+			return ""
+		}
+		return b + "." + name
+	case *ssa.Extract, *ssa.Call, *ssa.Parameter:
+		return fmt.Sprintf("%p", v)
+	case *ssa.UnOp:
+		// a load of (a field of) a local struct that is assigned once, whole, and only read afterwards
+		if x.Op != token.MUL {
+			return ""
+		}
+		path := ""
+		addr := x.X
+		for {
+			fa, ok := addr.(*ssa.FieldAddr)
+			if !ok {
+				break
+			}
+			_, name := fieldAddrName(fa)
+			path = "." + name + path
+			addr = fa.X
+		}
+		al, ok := addr.(*ssa.Alloc)
+		if !ok || !readOnlyAfterInit(al) {
+			return ""
+		}
+		return fmt.Sprintf("%p", al) + path
+	}
+	return ""
+}
+
+// readOnlyAfterInit: the local is stored to exactly once (as a whole) and otherwise only read, field by field or whole.
+func readOnlyAfterInit(al *ssa.Alloc) bool {
+	stores := 0
+	var onlyReads func(v ssa.Value) bool
+	onlyReads = func(v ssa.Value) bool {
+		for _, u := range usesOf(v) {
+			switch y := u.(type) {
+			case *ssa.UnOp, *ssa.DebugRef:
+			case *ssa.FieldAddr:
+				if !onlyReads(y) {
+					return false
+				}
+			case *ssa.Store:
+				if y.Addr != v || v != ssa.Value(al) {
+					return false
+				}
+				stores++
+			default:
+				return false
+			}
+		}
+		return true
+	}
+	return onlyReads(al) && stores == 1
 }
 
 func sameVar(a, b ssa.Value) bool {
@@ -1341,4 +1421,168 @@ func checkSyncedFlagNeverClearedByWallet(c *Ctx, rule string) {
 		}
 	}
 	c.Floor(rule, "settings of the chain-synced flag inside the wallet", n, 1)
+}
+
+// checkRescanFinishedAlwaysMarksSynced: the wallet acts on block-disconnected notifications only once it is marked
+// synced (known finding F38 is about the time before that), and the only place that marks it is the handling of the
+// rescan-finished notification. That handling therefore marks the wallet synced on EVERY path — whatever the catch-up
+// that precedes it returned — before the notification is passed on: a transient backend error at that moment must not
+// leave the flag down for the rest of the process' life, with every later disconnect ignored.
+func checkRescanFinishedAlwaysMarksSynced(c *Ctx, rule string) {
+	p := c.P
+	set := p.Func("wallet", "Wallet", "SetChainSynced")
+	hcn := p.Func("wallet", "Wallet", "handleChainNotifications")
+	if set == nil || hcn == nil {
+		c.Unresolved(rule, "wallet.Wallet.SetChainSynced / handleChainNotifications")
+		return
+	}
+	n := 0
+	for _, fn := range p.regionOf(hcn) {
+		for _, b := range fn.Blocks {
+			for _, ins := range b.Instrs {
+				ta, ok := ins.(*ssa.TypeAssert)
+				if !ok || !strings.HasSuffix(ta.AssertedType.String(), "chain.RescanFinished") {
+					continue
+				}
+				// the arm: the successor taken when the assertion holds
+				var arm *ssa.BasicBlock
+				for si := range b.Succs {
+					if f := edgeFactOf(b, si); f != nil && f.Kind == "true" {
+						if ex, ok := f.V.(*ssa.Extract); ok && ex.Tuple == ssa.Value(ta) {
+							arm = b.Succs[si]
+						}
+					}
+				}
+				if arm == nil {
+					continue
+				}
+				q := &PathQuery{Fn: fn}
+				q.Barrier = func(i ssa.Instruction) bool {
+					call, ok := i.(*ssa.Call)
+					if !ok || !p.isCallTo(call, set) || len(call.Call.Args) < 2 {
+						return false
+					}
+					k, isK := stripConv(call.Call.Args[1]).(*ssa.Const)
+					return isK && k.Value != nil && k.Value.String() == "true"
+				}
+				// passing the notification on (the send into the rescan notification channel) ends the handling
+				q.Target = func(i ssa.Instruction, _ *ssa.BasicBlock) bool {
+					var chans []ssa.Value
+					switch x := i.(type) {
+					case *ssa.Send:
+						chans = append(chans, x.Chan)
+					case *ssa.Select:
+						for _, st := range x.States {
+							if st.Send != nil {
+								chans = append(chans, st.Chan)
+							}
+						}
+					}
+					for _, ch := range chans {
+						if _, f, _, ok := fieldOf(stripConv(ch)); ok && f == "rescanNotifications" {
+							return true
+						}
+					}
+					return false
+				}
+				n++
+				hits := exploreFromBlock(q, arm, b)
+				pos := ta.Pos()
+				if len(hits) > 0 {
+					pos = hits[0].Ins.Pos()
+				}
+				c.Check(rule, "rescan-finished-always-marks-synced", pos, len(hits) == 0,
+					"the rescan-finished notification can be passed on without the wallet having been marked chain-synced (the marking depends on something that can fail): the flag is set nowhere else, so from then on every block-disconnected notification is ignored and a reorganisation leaves its transactions confirmed in blocks that left the chain")
+			}
+		}
+	}
+	c.Floor(rule, "handlings of the rescan-finished notification", n, 1)
+}
+
+// checkStoppedClientIsDetached: the wallet attaches a chain client only when none is attached (SynchronizeRPC returns at
+// once while the client field is non-nil — that field IS the "attached" flag), and everything that follows the backend
+// (the notification handler, the startup reorg check) is started by the attachment. Whoever stops the attached client
+// must therefore clear the field in the same critical section; otherwise the client handed in after a reconnect is
+// silently ignored, nothing consumes its notifications, and a reorganisation that happened while disconnected is never
+// rolled back.
+func checkStoppedClientIsDetached(c *Ctx, rule string) {
+	p := c.P
+	attach := p.Func("wallet", "Wallet", "SynchronizeRPC")
+	if attach == nil {
+		c.Unresolved(rule, "wallet.Wallet.SynchronizeRPC")
+		return
+	}
+	// the guard field: a field of the receiver whose non-nil edge leads to a return without anything being stored to it
+	guard := ""
+	for _, b := range attach.Blocks {
+		for si := range b.Succs {
+			ef := edgeFactOf(b, si)
+			if ef == nil || ef.Kind != "nonnil" {
+				continue
+			}
+			_, f, _, ok := fieldOf(stripConv(ef.V))
+			if !ok {
+				continue
+			}
+			if len(storesToFieldOwner(attach, "Wallet", f)) == 0 {
+				continue
+			}
+			// on that edge the function returns without attaching
+			q := &PathQuery{Fn: attach}
+			q.Target = func(ins ssa.Instruction, _ *ssa.BasicBlock) bool {
+				st, ok := ins.(*ssa.Store)
+				if !ok {
+					return false
+				}
+				fa, ok := st.Addr.(*ssa.FieldAddr)
+				if !ok {
+					return false
+				}
+				_, f2 := fieldAddrName(fa)
+				return f2 == f
+			}
+			if len(exploreFromBlock(q, b.Succs[si], b)) == 0 {
+				guard = f
+			}
+		}
+	}
+	if guard == "" {
+		c.Check(rule, "attach-guard-field", attach.Pos(), false, "SynchronizeRPC's already-attached test could not be identified (undecided)")
+		return
+	}
+	n := 0
+	for _, fn := range p.FuncsIn("wallet") {
+		for _, ci := range callsOf(fn) {
+			call, ok := ci.(*ssa.Call)
+			if !ok || !call.Call.IsInvoke() || call.Call.Method.Name() != "Stop" {
+				continue
+			}
+			_, f, _, ok := fieldOf(stripConv(call.Call.Value))
+			if !ok || f != guard {
+				continue
+			}
+			n++
+			q := &PathQuery{Fn: fn}
+			q.Barrier = func(ins ssa.Instruction) bool {
+				st, ok := ins.(*ssa.Store)
+				if !ok || !isNilConst(st.Val) {
+					return false
+				}
+				fa, ok := st.Addr.(*ssa.FieldAddr)
+				if !ok {
+					return false
+				}
+				_, f2 := fieldAddrName(fa)
+				return f2 == guard
+			}
+			q.Target = func(ins ssa.Instruction, _ *ssa.BasicBlock) bool {
+				_, isR := ins.(*ssa.Return)
+				return isR
+			}
+			hits := q.From(call)
+			c.Check(rule, "stopped-client-is-detached:"+fnName(fn), call.Pos(), len(hits) == 0,
+				fnName(fn)+" stops the attached chain client but can return with "+guard+" still set: SynchronizeRPC ignores every client handed in afterwards, no notification handler or startup reorg check runs for it, and the wallet stays on whatever branch it was on when it was stopped")
+		}
+	}
+	c.Floor(rule, "places that stop the attached chain client", n, 1)
 }
